@@ -39,6 +39,8 @@ def all_paths_pass(cfg, start, through, also_ok=()):
 
 
 def run(ck, facts, tier):
+    from shared import fixedpoint as _fpx
+    _fpx.loop_exits(ck, facts, "C01.FIXPOINT-EXITS")
     from shared import clauses as _cl
     _cl.every_clause(ck, facts, "C01.EVERY-CLAUSE")
     from shared import fixedpoint
